@@ -505,13 +505,85 @@ Definition run_step (s : runstate) (o : op) : runstate * list Z :=
         end
   end.
 
+(* Relational lines of the tractserver-level harness (TestVerifC08M): the raw bytes of a tract file as found on
+   disk, plus what the tractserver's own entry points answered; the verdict compares that answer with the file
+   model run on exactly those raw bytes.  Layouts (all integers >= 0; byte strings RLE):
+     21 raw n e                 Manager.Scrub      -> (n, e) must be Scrub's (size 0 on error)        code 4
+     22 off len cap raw n e d   Manager.Read       -> ReadAt(off,len,cap); n = 0 and no data on error code 5
+     23 raw size e              Manager.Size       -> Size                                            code 6
+     24 off len raw e d         Store.Read         -> ReadAt(off,len,len+ExtraRoom); EOF iff short    code 7
+     25 raw size e              Store.Stat         -> Size                                            code 8 *)
+Definition verdict_line (ok : bool) (code : Z) : list Z := [777%Z; if ok then 1%Z else code].
+
+Definition size_like (raw : list byte) (size e : Z) : bool :=
+  let '(s', e') := size_of raw in
+  if e' =? E_OK then (Z.to_N e =? E_OK) && (Z.to_N size =? s')
+  else (Z.to_N e =? e') && (Z.to_N size =? 0).
+
+Definition rel_verdict (l : list Z) : option (list Z) :=
+  if negb (nonneg l) then None else
+  match l with
+  | 21%Z :: rest =>
+      match rle_dec rest with
+      | Some (raw, [n; e]) =>
+          let '(n', e') := scrub raw in
+          Some (verdict_line (if e' =? E_OK then (Z.to_N e =? E_OK) && (Z.to_N n =? n')
+                              else (Z.to_N e =? e') && (Z.to_N n =? 0)) 4)
+      | _ => None
+      end
+  | 22%Z :: off :: len :: cap :: rest =>
+      match rle_dec rest with
+      | Some (raw, n :: e :: rest2) =>
+          match rle_dec rest2 with
+          | Some (data, []) =>
+              let '(d, e') := read_at raw (Z.to_N off) (Z.to_N len) (Z.to_N cap) in
+              Some (verdict_line
+                      (if (e' =? E_OK) || (e' =? E_EOF)
+                       then (Z.to_N e =? e') && (Z.to_N n =? lenN d) && list_eqb data d
+                       else (Z.to_N e =? e') && (Z.to_N n =? 0) && list_eqb data []) 5)
+          | _ => None
+          end
+      | _ => None
+      end
+  | 23%Z :: rest =>
+      match rle_dec rest with
+      | Some (raw, [size; e]) => Some (verdict_line (size_like raw size e) 6)
+      | _ => None
+      end
+  | 24%Z :: off :: len :: rest =>
+      match rle_dec rest with
+      | Some (raw, e :: rest2) =>
+          match rle_dec rest2 with
+          | Some (data, []) =>
+              let '(d, e') := read_at raw (Z.to_N off) (Z.to_N len) (Z.to_N len + c_ExtraRoom) in
+              Some (verdict_line
+                      (if (e' =? E_OK) || (e' =? E_EOF)
+                       then (Z.to_N e =? (if lenN d =? Z.to_N len then E_OK else E_EOF)) && list_eqb data d
+                       else (Z.to_N e =? e') && list_eqb data []) 7)
+          | _ => None
+          end
+      | _ => None
+      end
+  | 25%Z :: rest =>
+      match rle_dec rest with
+      | Some (raw, [size; e]) => Some (verdict_line (size_like raw size e) 8)
+      | _ => None
+      end
+  | _ => None
+  end.
+
 Fixpoint run_ops (s : runstate) (ops : list (list Z)) : list (list Z) :=
   match ops with
   | [] => []
-  | l :: t => match decode_op l with
-              | None => [(-1)%Z] :: run_ops s t
-              | Some o => let '(s', out) := run_step s o in out :: run_ops s' t
-              end
+  | l :: t =>
+      match rel_verdict l with
+      | Some out => out :: run_ops s t
+      | None =>
+          match decode_op l with
+          | None => [(-1)%Z] :: run_ops s t
+          | Some o => let '(s', out) := run_step s o in out :: run_ops s' t
+          end
+      end
   end.
 
 Definition run_case (ops : list (list Z)) : list (list Z) :=
